@@ -42,7 +42,7 @@ Scheds(rs) ==
 OneBurst(rs) == IF rs = <<>> THEN <<>> ELSE <<[delay |-> 0, data |-> Cat(rs)]>>
 
 P(op, enabled, swap, t, win, iof, pre, sched) ==
-  [op |-> op, enabled |-> enabled, swap |-> swap, term |-> t, win |-> win, ioctlFails |-> iof,
+  [op |-> op, inner |-> "always", enabled |-> enabled, swap |-> swap, term |-> t, win |-> win, ioctlFails |-> iof,
    preload |-> pre, sched |-> sched, attr0 |-> W0]
 
 Preloads == {<<>>, <<120, 27>>}      \* junk typed before the query: must be discarded
@@ -86,6 +86,16 @@ DisabledPars ==
   {P(op, FALSE, FALSE, [BaseTerm EXCEPT !.sup = {"fg", "bg", "xtv", "cell", "area", "kitty", "da1"}],
      Win(0, 0), FALSE, <<120>>, <<>>) : op \in {"colors", "namever", "cellsize", "kitty", "iterm2", "auto"}}
 
+\* histories: disable_queries(); op(); enable_queries(); op() - the second call must reach the
+\* terminal and report what it says (nothing learnt while disabled may survive)
+FullTerm == [BaseTerm EXCEPT !.sup = {"fg", "bg", "xtv", "cell", "area", "kitty", "da1"}]
+HistoryPars ==
+  UNION {{[P("history", TRUE, sw, FullTerm, w, FALSE, <<>>, <<sc>>) EXCEPT !.inner = o] :
+            sc \in Scheds(Replies(FullTerm, IF o = "colors" THEN ReqColors ELSE IF o = "namever" THEN ReqNameVer ELSE ReqCell)),
+            sw \in IF o = "cellsize" THEN BOOLEAN ELSE {FALSE},
+            w \in IF o = "cellsize" THEN {Win(0, 0), Win(800, 0), Win(800, 480)} ELSE {Win(0, 0)}}
+         : o \in {"colors", "namever", "cellsize"}}
+
 \* ---- identities x versions around the thresholds (no timing variation) ----
 Versions == {<<48, 46, 49, 57, 46, 57>> (* 0.19.9 *),
              <<48, 46, 50, 48, 46, 48>> (* 0.20.0 *),
@@ -126,11 +136,12 @@ TablePars ==
   \cup {P("iterm2", TRUE, FALSE, t, Win(0, 0), FALSE, <<>>, <<OneBurst(Replies(t, ReqNameVer))>>) :
           t \in {u \in TableTerms : u.kid = 31 /\ u.kmsg = MsgOK /\ "kitty" \in u.sup}}
 
-Params == ColorPars \cup NamePars \cup CellPars \cup KittyPars \cup DisabledPars
+Params == ColorPars \cup NamePars \cup CellPars \cup KittyPars \cup DisabledPars \cup HistoryPars
           \cup (IF Table THEN TablePars ELSE {})
 
 Cfg(p) == [enabled |-> p.enabled, qtmo |-> Tmo, swap |-> p.swap, term |-> p.term]
-Op(p) == [NoOp EXCEPT !.name = p.op]
+Op(p) == [NoOp EXCEPT !.name = p.op, !.more = p.inner]
+EOp == EffName(Op(par))
 
 Init ==
   /\ par \in Params
@@ -163,25 +174,25 @@ Done == m.status # "run" \/ e.hung
 AllSched == Cat([i \in 1..Len(par.sched) |-> par.sched[i]])      \* every burst of every write
 InTime == \A i \in 1..Len(AllSched) : AllSched[i].delay < Tmo
 Queried ==      \* the operation actually sends a query
-  par.enabled /\ ~(par.op = "cellsize" /\ IoctlGood(par.win, par.ioctlFails))
+  par.enabled /\ ~(EOp = "cellsize" /\ IoctlGood(par.win, par.ioctlFails))
 ReqOf(op) == IF op = "colors" THEN ReqColors ELSE IF op = "namever" THEN ReqNameVer
              ELSE IF op = "cellsize" THEN ReqCell ELSE ReqKitty
 
 \* result = concatenation of the sent replies (two-phase reads: up to the CSI of the DA1
 \* reply, the rest is drained by the second read)
 ResultIsReplies ==
-  (Done /\ InTime /\ Queried /\ par.op \in {"colors", "namever", "cellsize", "kitty"}) =>
+  (Done /\ InTime /\ Queried /\ EOp \in {"colors", "namever", "cellsize", "kitty"}) =>
     LET t == par.term
-        req == ReqOf(par.op)
+        req == ReqOf(EOp)
         all == Cat(Replies(t, req)) IN
-    IF par.op \in {"colors", "namever"}
+    IF EOp \in {"colors", "namever"}
       THEN /\ m.rb \o m.drained = all
            /\ m.rb = IF "da1" \in t.sup THEN Before(t, QueriesOf(req), "da1") \o CSIb ELSE all
       ELSE ~m.rnone /\ m.rb = all
 \* parsed values = the replied ones
 ReportedIsReplied ==
   (Done /\ InTime) =>
-    m.val = ExpectedVal(par.op, par.enabled, par.swap, par.term, par.win, par.ioctlFails)
+    m.val = ExpectedVal(EOp, par.enabled, par.swap, par.term, par.win, par.ioctlFails)
 \* nothing is left unread, nothing is still under way
 QueueEmpty == (Done /\ InTime /\ Queried) => (e.inq = <<>> /\ e.pend = <<>>)
 \* never waits beyond the timeout of the query under way, never blocks for ever
@@ -191,9 +202,9 @@ NeverHangs == ~e.hung
 \* nothing is written when queries are disabled; otherwise exactly the documented requests
 ExpectedWrites ==
   IF ~Queried THEN <<>>
-  ELSE CASE par.op = "colors" -> <<ReqColors>>
-         [] par.op \in {"namever", "iterm2"} -> <<ReqNameVer>>
-         [] par.op = "cellsize" -> <<ReqCell>>
+  ELSE CASE EOp = "colors" -> <<ReqColors>>
+         [] EOp \in {"namever", "iterm2"} -> <<ReqNameVer>>
+         [] EOp = "cellsize" -> <<ReqCell>>
          [] OTHER -> IF ~m.nvNone /\ m.nvName = NmITerm2 THEN <<ReqNameVer>> ELSE <<ReqNameVer, ReqKitty>>
 Requests == Done => e.wlog = ExpectedWrites
 \* C13 on the fault-free paths: the attribute word is put back
@@ -203,7 +214,7 @@ Terminates == Done => m.status = "returned"
 Residual == e.inq \o Cat([i \in 1..Len(e.pend) |-> e.pend[i].data])
 Report ==
   Done => PrintT(<<"SCEN", ToJson(
-    [op |-> par.op, enabled |-> par.enabled, swap |-> par.swap, win |-> par.win,
+    [op |-> par.op, inner |-> par.inner, enabled |-> par.enabled, swap |-> par.swap, win |-> par.win,
      ioctlFails |-> par.ioctlFails, preload |-> par.preload, sched |-> par.sched, attr0 |-> par.attr0,
      tmo |-> Tmo, intime |-> InTime,
      term |-> par.term,
